@@ -59,10 +59,35 @@ pub fn script_ms(f: &TcpFlow) -> u64 {
 
 /// Run all flows of the plan through the real system and collect what every endpoint saw.
 pub async fn run_tcp_system(plan: &Plan, atomic_handshake: bool) -> TcpRun {
+    run_tcp_system_via(plan, atomic_handshake, None).await.0
+}
+
+/// Same, optionally with the man-in-the-middle proxy on the client <-> server link.
+pub async fn run_tcp_system_via(
+    plan: &Plan,
+    atomic_handshake: bool,
+    link: Option<(crate::proxy::DirScript, crate::proxy::DirScript)>,
+) -> (TcpRun, crate::proxy::ProxyObs) {
+    let pobs = Arc::new(Mutex::new(crate::proxy::ProxyObs::default()));
+    let proxy_task = link.map(|(a, b)| tokio::spawn(crate::proxy::run_proxy(a, b, pobs.clone())));
+    let via_port = if proxy_task.is_some() { crate::proxy::PROXY_PORT } else { SERVER_PORT };
+    let run = run_tcp_system_inner(plan, atomic_handshake, via_port).await;
+    if let Some(t) = proxy_task {
+        t.abort();
+        let _ = t.await;
+    }
+    let o = std::mem::take(&mut *pobs.lock().unwrap());
+    (run, o)
+}
+
+async fn run_tcp_system_inner(plan: &Plan, atomic_handshake: bool, via_port: u16) -> TcpRun {
     install_zone(plan);
     if is_2022(&plan.config.cipher) && plan.config.proto == Proto::Shadowsocks {
         // SIP022: salt and fixed-length header must arrive in the first read – the boundary the properties exempt
-        world::with(|w| w.first_atomic_ports.push(SERVER_PORT));
+        world::with(|w| {
+            w.first_atomic_ports.push(SERVER_PORT);
+            w.first_atomic_ports.push(crate::proxy::PROXY_PORT);
+        });
     }
     let mut run = TcpRun {
         startup_err: None,
@@ -75,7 +100,7 @@ pub async fn run_tcp_system(plan: &Plan, atomic_handshake: bool) -> TcpRun {
         mains_finished: (false, false),
         stall_dump: String::new(),
     };
-    let mains = match start_system(&plan.config, "127.0.0.1", SERVER_PORT).await {
+    let mains = match start_system(&plan.config, "127.0.0.1", via_port).await {
         Ok(m) => m,
         Err(e) => {
             run.startup_err = Some(e);
@@ -369,5 +394,7 @@ pub fn execute_c01(plan: &Plan) -> Outcome {
         case_hash: out.poll_hash ^ plan_shape_hash(plan),
         probes,
         panics: out.panics,
+        extra_evaluations: 0,
+        extra_cases: Vec::new(),
     }
 }
